@@ -1,7 +1,7 @@
 (* C05 — the query parser: what is proved about acceptance.  Statements only. *)
 From Coq Require Import List.
 From GQL.model Require Import Base Utf8 Lexer Ast Parser Prog ParseQuery.
-From GQL.proofs Require Import ParserTotal NumberGrammar TypeRoundtrip TokenStream JsonRoundtrip ParseComplete.
+From GQL.proofs Require Import ParserTotal NumberGrammar TypeRoundtrip TokenStream JsonRoundtrip ParseComplete Sizes.
 Import ListNotations.
 
 (* Acceptance is a statement about the whole string: a document is returned only after the parser
@@ -48,6 +48,15 @@ Theorem C05_grammatical_documents_are_parsed : forall d q input fuel,
   exists q' s, parseQueryWith d fuel 0 input = (POk q', s) /\ erase_qdoc q' = erase_qdoc q.
 Proof. exact parseQuery_complete. Qed.
 Print Assumptions C05_grammatical_documents_are_parsed.
+
+(* The same for the entry point as it is: the fuel parseQuery gives itself (2*|input|+8) always suffices,
+   because nesting depth and list lengths of q are bounded by the number of its tokens (doc_sizes) and
+   the number of tokens of a text by its length (toks_len). *)
+Theorem C05_grammatical_documents_are_parsed_by_parseQuery : forall d q input,
+  doc_wok d q -> toks d input (flat_doc q) ->
+  exists q', parseQuery d 0 input = POk q' /\ erase_qdoc q' = erase_qdoc q.
+Proof. exact parseQuery_complete_entry. Qed.
+Print Assumptions C05_grammatical_documents_are_parsed_by_parseQuery.
 
 (* the same for every production on its own, in front of any continuation (here: selections) *)
 Theorem C05_selections_are_parsed : forall d F c, sel_wok c -> forall fuel s rest,
